@@ -39,6 +39,10 @@ StepCap == H.mode # "maxstep" \/ H.eps >= H.maturity \/ \A k \in 1..(NT - 1) : E
 \* where the finding "refinement stops at the last jump" shows: the step that ends at maturity / the no-jump path
 CapSig == IF \A k \in 1..(NT - 2) : E.times[k + 1] - E.times[k] <= H.eps THEN "laststep" ELSE "inner"
 
+\* the jump counts are asked interval by interval of the product dates: the lengths handed over are the gaps between
+\* consecutive dates, in order (the same cycle again for a further pass over the dates)
+DateGaps == [i \in 1..(Len(H.dates) - 1) |-> H.dates[i + 1] - H.dates[i]]
+DtsOK == ("dts" \notin DOMAIN E) \/ \A i \in 1..Len(E.dts) : E.dts[i] = DateGaps[((i - 1) % Len(DateGaps)) + 1]
 PathStep ==
     /\ More /\ E.e = "Path"
     /\ LET checks == << <<"Numeric", E.bad = 0>>,
@@ -46,7 +50,8 @@ PathStep ==
                         <<"TimesIncreasingToMaturity", E.bad # 0 \/ (TimesIncreasing /\ EndsAtMaturity)>>,
                         <<"OnProductDates", E.bad # 0 \/ OnProductDates>>,
                         <<"RunningSumOfJumps", E.bad # 0 \/ RunningSum>>,
-                        <<"RunningSumOfBrownianIncrements", E.bad # 0 \/ DiffusionRunningSum>> >>
+                        <<"RunningSumOfBrownianIncrements", E.bad # 0 \/ DiffusionRunningSum>>,
+                        <<"JumpCountsAskedPerDateInterval", E.bad # 0 \/ DtsOK>> >>
            failed == SelectSeq(checks, LAMBDA c : ~c[2])
            capok == E.bad # 0 \/ StepCap
        IN /\ (\A i \in 1..Len(failed) : Viol(failed[i][1]))
